@@ -41,6 +41,8 @@ fn run_mt(r: &Recipe, out: Res) {
     });
 }
 
+static ABANDONED: std::sync::atomic::AtomicUsize = std::sync::atomic::AtomicUsize::new(0);
+
 impl Prop for C05 {
     type Case = C05Case;
     fn id(&self) -> &'static str {
@@ -69,11 +71,26 @@ impl Prop for C05 {
         drop(a);
         let out: Res = Arc::new(Mutex::new(None));
         let (r2, o2) = (r.clone(), out.clone());
-        let ex = explore(&case.decisions, 3_000_000, move || run_mt(&r2, o2.clone()));
+        // step budget by graph size: tiny end-of-stream graphs finish within a few hundred
+        // scheduling steps (a run that never ends is then recognised after 60 000 steps instead
+        // of 3 million)
+        // an execution that is cut off at the step bound or in a deadlock leaves its tasks (and
+        // their stream mappings) behind: once a run has recorded a number of them, further cases
+        // are skipped instead of piling up abandoned executions until memory runs out
+        if ABANDONED.load(std::sync::atomic::Ordering::Relaxed) >= 200 {
+            ctx.skip("enough abandoned (non-terminating / deadlocked) executions recorded in this run");
+            return;
+        }
+        let tiny = !r.src_pieces.is_empty() && r.src_pieces.iter().map(|x| *x as u64).sum::<u64>() < 64;
+        let budget: u64 = if tiny { 60_000 } else { 3_000_000 };
+        let ex = explore(&case.decisions, budget as usize, move || run_mt(&r2, o2.clone()));
         let size = r.pages.max(1) as usize * 4096;
+        if ex.step_bound_hit || ex.deadlock {
+            ABANDONED.fetch_add(1, std::sync::atomic::Ordering::Relaxed);
+        }
         if let Some(pi) = &ex.panic {
             if ex.step_bound_hit {
-                if ex.fair_steps > 1_500_000 {
+                if ex.fair_steps as u64 > budget / 2 {
                     ctx.fail(
                         "C05/no-termination-under-fair-schedule".to_string(),
                         format!("MTGraph::run() did not return within {} scheduling steps, {} of them under the fair continuation", ex.steps, ex.fair_steps),
